@@ -488,8 +488,24 @@ class FactoryRun:
         T = self.T
         drain = self.spec.get("drain")     # {"quiet": w, "t_max": m}: keep going after T until no store
         self.drained_at = None             # operation happened for w time units (finite inputs only)
+        reports = sorted(self.spec.get("reports") or [])
         while True:
             t = env.peek()
+            while reports and reports[0] < min(t, T):
+                # an intermediate report: the clock is moved to the report instant (nothing is scheduled before it) and the
+                # oracles may read / finalise statistics there, then the run goes on
+                rt = reports.pop(0)
+                if rt > env.now:
+                    for o in self.oracles:
+                        o.end_of_instant(self)
+                    self.events_this_instant = 0
+                    try:
+                        env.run(until=rt)
+                    except BaseException as exc:
+                        raise HarnessError("advance to report time failed: %r" % (exc,))
+                for o in self.oracles:
+                    if hasattr(o, "on_report"):
+                        o.on_report(self, rt)
             if t > T:
                 if not drain:
                     break
